@@ -534,10 +534,12 @@ package emitter
 //@ pred SwChunks(rem seq[*chunk], p int, sid int, ret int) = forall m int :: {rem[m]} (p < m && m < len(rem)) ==> (rem[m] != nil && rem[m].id == sid + (m - p) && rem[m].returnID == ret && rem[m].branchBehavior == nil)
 //@ pred SwDestOK(rem seq[*chunk], p int, sid int, id int) = sid < id && p + (id - sid) < len(rem)
 // the body case k leads to: the body of the next case that has one; nothing when there is none
-//@ pred SwBodyOK(c *chunk, stmt *ast.SwitchStatement, k int) = (NB(stmt, k) < len(stmt.Cases) ? c.statements == stmt.Cases[NB(stmt, k)].Body.Statements : len(c.statements) == 0)
+//@ pred SwBodyOK(c *chunk, stmt *ast.SwitchStatement, k int) = SwBody(c.statements, stmt, k)
 //@ pred SwEntryOK(e *switchCaseBranch, stmt *ast.SwitchStatement, k int, rem seq[*chunk], p int, sid int) = e != nil && e.comparisonValue == stmt.Cases[k].Value
 //@   && SwDestOK(rem, p, sid, e.destChunkID) && SwBodyOK(SwChunk(rem, p, sid, e.destChunkID), stmt, k)
-//@ pred SwP(rem0 seq[*chunk], c *chunk, si int) = len(rem0) + (si == len(c.statements) - 1 ? 0 : 1)
+//@ pred SwP(rem0 seq[*chunk], n int, si int) = len(rem0) + (si == n - 1 ? 0 : 1)
+// the id of the switch chunk: the first id handed out after the one for the statements that follow the switch (if any)
+//@ pred SwSid(cc0 int, n int, si int) = cc0 + 1 + (si == n - 1 ? 0 : 1)
 
 //@ func createSwitchStatementChunks
 //@   requires SwitchStmtOK(stmt) && curChunk != nil && chunkCounter != nil && *chunkCounter >= 0 && 0 <= statementIndex && statementIndex < len(curChunk.statements)
@@ -563,14 +565,14 @@ package emitter
 // (with an empty chunk) exactly when a 'default' body would otherwise run for it
 //@   exit [C03:switch-cases] !(len(stmt.Cases) > 0 && NB(stmt, 0) >= len(stmt.Cases)) ==> (switchChunk.branchBehavior == branchBehavior && branchBehavior.operand == stmt.Operand
 //@        && len(branchBehavior.cases) == LC(stmt, len(stmt.Cases))
-//@        && (forall k int :: {LC(stmt, k)} (0 <= k && k < len(stmt.Cases) && SwListed(stmt, k)) ==> (0 <= LC(stmt, k) && LC(stmt, k) < len(branchBehavior.cases) && SwEntryOK(branchBehavior.cases[LC(stmt, k)], stmt, k, result0, SwP(old(remainingChunks), curChunk, statementIndex), switchChunk.id))))
-//@   exit [C03:switch-chunks] SwChunks(result0, SwP(old(remainingChunks), curChunk, statementIndex), switchChunk.id, returnID) && switchChunk.id == result1.destChunkID && returnID == result2
-//@        && switchChunk == result0[SwP(old(remainingChunks), curChunk, statementIndex)]
+//@        && (forall k int :: {LC(stmt, k)} (0 <= k && k < len(stmt.Cases) && SwListed(stmt, k)) ==> (0 <= LC(stmt, k) && LC(stmt, k) < len(branchBehavior.cases) && SwEntryOK(branchBehavior.cases[LC(stmt, k)], stmt, k, result0, SwP(old(remainingChunks), old(len(curChunk.statements)), statementIndex), SwSid(old(*chunkCounter), old(len(curChunk.statements)), statementIndex)))))
+//@   exit [C03:switch-chunks] SwChunks(result0, SwP(old(remainingChunks), old(len(curChunk.statements)), statementIndex), SwSid(old(*chunkCounter), old(len(curChunk.statements)), statementIndex), returnID) && switchChunk.id == result1.destChunkID && switchChunk.id == SwSid(old(*chunkCounter), old(len(curChunk.statements)), statementIndex) && returnID == result2
+//@        && switchChunk == result0[SwP(old(remainingChunks), old(len(curChunk.statements)), statementIndex)]
 // C03: 'default', wherever it is written, runs exactly when no listed value matches: it leads to the body it shares, or,
 // without one, to the statement after the switch
 //@   exit [C03:switch-default] !(len(stmt.Cases) > 0 && NB(stmt, 0) >= len(stmt.Cases)) ==> (PD(stmt, len(stmt.Cases))
-//@        ? (branchBehavior.defaultCase != nil && SwDestOK(result0, SwP(old(remainingChunks), curChunk, statementIndex), switchChunk.id, branchBehavior.defaultCase.destChunkID)
-//@           && (forall d int :: {NB(stmt, d)} (0 <= d && d < len(stmt.Cases) && stmt.Cases[d].IsDefault && NB(stmt, d) < len(stmt.Cases)) ==> SwBodyOK(SwChunk(result0, SwP(old(remainingChunks), curChunk, statementIndex), switchChunk.id, branchBehavior.defaultCase.destChunkID), stmt, d)))
+//@        ? (branchBehavior.defaultCase != nil && SwDestOK(result0, SwP(old(remainingChunks), old(len(curChunk.statements)), statementIndex), SwSid(old(*chunkCounter), old(len(curChunk.statements)), statementIndex), branchBehavior.defaultCase.destChunkID)
+//@           && (forall d int :: {NB(stmt, d)} (0 <= d && d < len(stmt.Cases) && stmt.Cases[d].IsDefault && NB(stmt, d) < len(stmt.Cases)) ==> SwBodyOK(SwChunk(result0, SwP(old(remainingChunks), old(len(curChunk.statements)), statementIndex), SwSid(old(*chunkCounter), old(len(curChunk.statements)), statementIndex), branchBehavior.defaultCase.destChunkID), stmt, d)))
 //@        : (branchBehavior.defaultCase == nil && branchBehavior.destChunkID == returnID))
 //@   loop 1
 //@     modifies *chunkCounter, branchBehavior.defaultCase
@@ -580,15 +582,15 @@ package emitter
 //@     use PDStep(stmt, i)
 //@     use LCBase(stmt)
 //@     use LCStep(stmt, i)
-//@     invariant [C03:sw-count-inv|~switch-distinct,~sw-cases-inv,~sw-default-inv] len(pre(remainingChunks)) - 1 == SwP(old(remainingChunks), curChunk, statementIndex)
-//@     invariant [C03:sw-count-inv|~switch-distinct,~sw-cases-inv,~sw-default-inv] SwChunks(remainingChunks, SwP(old(remainingChunks), curChunk, statementIndex), switchChunk.id, returnID) && switchChunk.id == pre(*chunkCounter) && branchBehavior.operand == stmt.Operand && branchBehavior != nil
-//@     invariant [C03:sw-count-inv|~switch-distinct,~sw-cases-inv,~sw-default-inv] switchChunk.id + (len(remainingChunks) - 1 - SwP(old(remainingChunks), curChunk, statementIndex)) == *chunkCounter
+//@     invariant [C03:sw-count-inv|~switch-distinct,~sw-cases-inv,~sw-default-inv] len(pre(remainingChunks)) - 1 == SwP(old(remainingChunks), old(len(curChunk.statements)), statementIndex)
+//@     invariant [C03:sw-count-inv|~switch-distinct,~sw-cases-inv,~sw-default-inv] SwChunks(remainingChunks, SwP(old(remainingChunks), old(len(curChunk.statements)), statementIndex), SwSid(old(*chunkCounter), old(len(curChunk.statements)), statementIndex), returnID) && switchChunk.id == pre(*chunkCounter) && switchChunk.id == SwSid(old(*chunkCounter), old(len(curChunk.statements)), statementIndex) && branchBehavior.operand == stmt.Operand && branchBehavior != nil
+//@     invariant [C03:sw-count-inv|~switch-distinct,~sw-cases-inv,~sw-default-inv] SwSid(old(*chunkCounter), old(len(curChunk.statements)), statementIndex) + (len(remainingChunks) - 1 - SwP(old(remainingChunks), old(len(curChunk.statements)), statementIndex)) == *chunkCounter
 //@     invariant [C03:sw-count-inv|~switch-distinct,~sw-cases-inv,~sw-default-inv] len(branchCases) == LC(stmt, i) && processedDefaultCase == PD(stmt, i) && (i > 0 ==> (NB(stmt, 0) < len(stmt.Cases) && (len(branchCases) >= 1 || processedDefaultCase)))
-//@     invariant [C03:sw-cases-inv|split3,~switch-distinct,~sw-default-inv] forall k int :: {LC(stmt, k)} (0 <= k && k < i && SwListed(stmt, k)) ==> (0 <= LC(stmt, k) && LC(stmt, k) < len(branchCases) && SwEntryOK(branchCases[LC(stmt, k)], stmt, k, remainingChunks, SwP(old(remainingChunks), curChunk, statementIndex), switchChunk.id))
-//@     invariant [C03:sw-default-inv|split2,~switch-distinct,~sw-cases-inv,~sw-noop-inv] processedDefaultCase ? (branchBehavior.defaultCase != nil && SwDestOK(remainingChunks, SwP(old(remainingChunks), curChunk, statementIndex), switchChunk.id, branchBehavior.defaultCase.destChunkID)
-//@           && (forall d int :: {NB(stmt, d)} (0 <= d && d < i && stmt.Cases[d].IsDefault && NB(stmt, d) < len(stmt.Cases)) ==> SwBodyOK(SwChunk(remainingChunks, SwP(old(remainingChunks), curChunk, statementIndex), switchChunk.id, branchBehavior.defaultCase.destChunkID), stmt, d)))
+//@     invariant [C03:sw-cases-inv|split3,~switch-distinct,~sw-default-inv] forall k int :: {LC(stmt, k)} (0 <= k && k < i && SwListed(stmt, k)) ==> (0 <= LC(stmt, k) && LC(stmt, k) < len(branchCases) && SwEntryOK(branchCases[LC(stmt, k)], stmt, k, remainingChunks, SwP(old(remainingChunks), old(len(curChunk.statements)), statementIndex), SwSid(old(*chunkCounter), old(len(curChunk.statements)), statementIndex)))
+//@     invariant [C03:sw-default-inv|split2,~switch-distinct,~sw-cases-inv,~sw-noop-inv] processedDefaultCase ? (branchBehavior.defaultCase != nil && SwDestOK(remainingChunks, SwP(old(remainingChunks), old(len(curChunk.statements)), statementIndex), SwSid(old(*chunkCounter), old(len(curChunk.statements)), statementIndex), branchBehavior.defaultCase.destChunkID)
+//@           && (forall d int :: {NB(stmt, d)} (0 <= d && d < i && stmt.Cases[d].IsDefault && NB(stmt, d) < len(stmt.Cases)) ==> SwBodyOK(SwChunk(remainingChunks, SwP(old(remainingChunks), old(len(curChunk.statements)), statementIndex), SwSid(old(*chunkCounter), old(len(curChunk.statements)), statementIndex), branchBehavior.defaultCase.destChunkID), stmt, d)))
 //@        : branchBehavior.defaultCase == nil
-//@     invariant [C03:sw-noop-inv|~switch-distinct,~sw-cases-inv,~sw-default-inv] noopChunkID != -1 ==> (SwDestOK(remainingChunks, SwP(old(remainingChunks), curChunk, statementIndex), switchChunk.id, noopChunkID) && len(SwChunk(remainingChunks, SwP(old(remainingChunks), curChunk, statementIndex), switchChunk.id, noopChunkID).statements) == 0)
+//@     invariant [C03:sw-noop-inv|~switch-distinct,~sw-cases-inv,~sw-default-inv] noopChunkID != -1 ==> (SwDestOK(remainingChunks, SwP(old(remainingChunks), old(len(curChunk.statements)), statementIndex), SwSid(old(*chunkCounter), old(len(curChunk.statements)), statementIndex), noopChunkID) && len(SwChunk(remainingChunks, SwP(old(remainingChunks), old(len(curChunk.statements)), statementIndex), SwSid(old(*chunkCounter), old(len(curChunk.statements)), statementIndex), noopChunkID).statements) == 0)
 //@     invariant [C03,C04:switch-inv] 0 <= i && i <= len(stmt.Cases) && *chunkCounter >= pre(*chunkCounter)
 //@     invariant [C03,C04:switch-inv] noopChunkID == -1 || (1 <= noopChunkID && noopChunkID <= *chunkCounter)
 //@     invariant [C03,C04:switch-inv] len(remainingChunks) == len(pre(remainingChunks)) + (*chunkCounter - pre(*chunkCounter))
@@ -620,12 +622,12 @@ package emitter
 //@     use PDStep(stmt, i)
 //@     use LCStep(stmt, i)
 //@     invariant [C03:sw-count-inv|~switch-distinct,~sw-cases-inv,~sw-default-inv] outer(i) <= i && len(stmt.Cases[j].Body.Statements) > 0 && (forall m int :: {stmt.Cases[m]} (outer(i) <= m && m <= j) ==> NB(stmt, m) == j)
-//@     invariant [C03:sw-count-inv|~switch-distinct,~sw-cases-inv,~sw-default-inv] SwChunks(remainingChunks, SwP(old(remainingChunks), curChunk, statementIndex), switchChunk.id, returnID) && switchChunk.id + (len(remainingChunks) - 1 - SwP(old(remainingChunks), curChunk, statementIndex)) == *chunkCounter
-//@     invariant [C03:sw-count-inv|~switch-distinct,~sw-cases-inv,~sw-default-inv] SwDestOK(remainingChunks, SwP(old(remainingChunks), curChunk, statementIndex), switchChunk.id, destChunkID) && SwChunk(remainingChunks, SwP(old(remainingChunks), curChunk, statementIndex), switchChunk.id, destChunkID).statements == stmt.Cases[j].Body.Statements
+//@     invariant [C03:sw-count-inv|~switch-distinct,~sw-cases-inv,~sw-default-inv] SwChunks(remainingChunks, SwP(old(remainingChunks), old(len(curChunk.statements)), statementIndex), SwSid(old(*chunkCounter), old(len(curChunk.statements)), statementIndex), returnID) && SwSid(old(*chunkCounter), old(len(curChunk.statements)), statementIndex) + (len(remainingChunks) - 1 - SwP(old(remainingChunks), old(len(curChunk.statements)), statementIndex)) == *chunkCounter
+//@     invariant [C03:sw-count-inv|~switch-distinct,~sw-cases-inv,~sw-default-inv] SwDestOK(remainingChunks, SwP(old(remainingChunks), old(len(curChunk.statements)), statementIndex), SwSid(old(*chunkCounter), old(len(curChunk.statements)), statementIndex), destChunkID) && SwChunk(remainingChunks, SwP(old(remainingChunks), old(len(curChunk.statements)), statementIndex), SwSid(old(*chunkCounter), old(len(curChunk.statements)), statementIndex), destChunkID).statements == stmt.Cases[j].Body.Statements
 //@     invariant [C03:sw-count-inv|~switch-distinct,~sw-cases-inv,~sw-default-inv] len(branchCases) == LC(stmt, i) && processedDefaultCase == (PD(stmt, i) || stmt.Cases[j].IsDefault) && (i > outer(i) ==> (len(branchCases) >= 1 || processedDefaultCase))
-//@     invariant [C03:sw-cases-inv|split3,~switch-distinct,~sw-default-inv] forall k int :: {LC(stmt, k)} (0 <= k && k < i && SwListed(stmt, k)) ==> (0 <= LC(stmt, k) && LC(stmt, k) < len(branchCases) && SwEntryOK(branchCases[LC(stmt, k)], stmt, k, remainingChunks, SwP(old(remainingChunks), curChunk, statementIndex), switchChunk.id))
-//@     invariant [C03:sw-default-inv|split2,~switch-distinct,~sw-cases-inv,~sw-noop-inv] processedDefaultCase ? (branchBehavior.defaultCase != nil && SwDestOK(remainingChunks, SwP(old(remainingChunks), curChunk, statementIndex), switchChunk.id, branchBehavior.defaultCase.destChunkID)
-//@           && (forall d int :: {NB(stmt, d)} (0 <= d && d < len(stmt.Cases) && (d < i || d == j) && stmt.Cases[d].IsDefault && NB(stmt, d) < len(stmt.Cases)) ==> SwBodyOK(SwChunk(remainingChunks, SwP(old(remainingChunks), curChunk, statementIndex), switchChunk.id, branchBehavior.defaultCase.destChunkID), stmt, d)))
+//@     invariant [C03:sw-cases-inv|split3,~switch-distinct,~sw-default-inv] forall k int :: {LC(stmt, k)} (0 <= k && k < i && SwListed(stmt, k)) ==> (0 <= LC(stmt, k) && LC(stmt, k) < len(branchCases) && SwEntryOK(branchCases[LC(stmt, k)], stmt, k, remainingChunks, SwP(old(remainingChunks), old(len(curChunk.statements)), statementIndex), SwSid(old(*chunkCounter), old(len(curChunk.statements)), statementIndex)))
+//@     invariant [C03:sw-default-inv|split2,~switch-distinct,~sw-cases-inv,~sw-noop-inv] processedDefaultCase ? (branchBehavior.defaultCase != nil && SwDestOK(remainingChunks, SwP(old(remainingChunks), old(len(curChunk.statements)), statementIndex), SwSid(old(*chunkCounter), old(len(curChunk.statements)), statementIndex), branchBehavior.defaultCase.destChunkID)
+//@           && (forall d int :: {NB(stmt, d)} (0 <= d && d < len(stmt.Cases) && (d < i || d == j) && stmt.Cases[d].IsDefault && NB(stmt, d) < len(stmt.Cases)) ==> SwBodyOK(SwChunk(remainingChunks, SwP(old(remainingChunks), old(len(curChunk.statements)), statementIndex), SwSid(old(*chunkCounter), old(len(curChunk.statements)), statementIndex), branchBehavior.defaultCase.destChunkID), stmt, d)))
 //@        : branchBehavior.defaultCase == nil
 //@     invariant [C03,C04:switch-inv] forall k int :: {branchCases[k]} (0 <= k && k < len(branchCases)) ==> (branchCases[k] != nil && allocated(branchCases[k]) && 0 <= branchCases[k].destChunkID && branchCases[k].destChunkID <= *chunkCounter)
 //@     invariant [C03,C04:switch-inv] branchBehavior.defaultCase != nil ==> (allocated(branchBehavior.defaultCase) && 0 <= branchBehavior.defaultCase.destChunkID && branchBehavior.defaultCase.destChunkID <= *chunkCounter)
